@@ -13,6 +13,9 @@ package nsqd
 //@   ensures[timestamp] result.Timestamp == unixNano(lastNow)
 //@   ensures[first-attempt] result.Attempts == 0 && result.deferred == 0
 //@   ensures[bytes-kept] forall s []byte, k int :: {s[k]} base(s) >= 0 ==> s[k] == old(s[k])
+//   the id of every message that existed before is left alone (gm: an arbitrary message)
+//@   ghostparam gm *Message
+//@   ensures[other-ids-kept] gm != nil && old(allocated(gm)) ==> forall k int :: {gm.ID[k]} 0 <= k && k < 16 ==> gm.ID[k] == old(gm.ID[k])
 //@   modifies lastNow, elems(byte)
 
 //@ func decodeMessage(b []byte) (*Message, error)
